@@ -1290,7 +1290,8 @@ func (c *Checker) checkMethod(
 
 		c.returnType = returnType
 		c.throwType = throwType
-		bodyReturnType, returnSpan := c.checkStatements(body, true)
+		// a generator keeps its frame until it is exhausted: a call that ends its body is not a tail call
+		bodyReturnType, returnSpan := c.checkStatements(body, !checkedMethod.IsGenerator())
 
 		if !checkedMethod.IsAbstract() && !c.IsHeader() {
 			if c.shouldInferClosureReturnType() {
